@@ -18,6 +18,18 @@ type Term struct {
 
 var interned = map[string]*Term{}
 
+var typeKeys = map[types.Type]string{}
+
+// typeKey: types.TypeString is expensive and parameters are interned over and over.
+func typeKey(t types.Type) string {
+	if k, ok := typeKeys[t]; ok {
+		return k
+	}
+	k := types.TypeString(t, nil)
+	typeKeys[t] = k
+	return k
+}
+
 func mk(kind, name string, idx int, typ types.Type, args ...*Term) *Term {
 	var sb strings.Builder
 	sb.WriteString(kind)
@@ -31,7 +43,7 @@ func mk(kind, name string, idx int, typ types.Type, args ...*Term) *Term {
 	if (kind == "param" || kind == "freevar") && typ != nil {
 		// parameters of different functions may share a name: keep them apart by type
 		sb.WriteByte('~')
-		sb.WriteString(types.TypeString(typ, nil))
+		sb.WriteString(typeKey(typ))
 	}
 	if idx != 0 {
 		fmt.Fprintf(&sb, "#%d", idx)
